@@ -211,6 +211,8 @@ def compare(it, op, a, b):
         return cmp(op, a, b)
     if isinstance(a, (int, float)) and isinstance(b, (int, float)):
         return {"<": a < b, "<=": a <= b, ">": a > b, ">=": a >= b}[op]
+    if isinstance(a, SFloat) and isinstance(b, SFloat) and a.ns is not None and b.ns is not None:
+        return cmp(op, a.ns, b.ns)          # two wall-clock values: compared on the ghost clock
     if isinstance(a, SRatio) or isinstance(b, SRatio) or isinstance(a, (SFloat, float)) or isinstance(b, (SFloat, float)):
         # opaque floats (wall-clock seconds): the outcome of the comparison is unknown -> a fresh
         # unconstrained bool (both outcomes are explored: sound over-approximation)
@@ -335,6 +337,12 @@ def binop(it, op, a, b):
         if op == "Add":
             sa, sb = to_float_sign(a), to_float_sign(b)
             both = b_and(sa, sb)
+            for x, y in ((a, b), (b, a)):
+                # wall-clock seconds + whole seconds: keep the ghost clock value (a deadline)
+                if isinstance(x, SFloat) and x.ns is not None and isinstance(y, (int, SInt)) and not isinstance(y, bool):
+                    lo, hi = sym.rng(y)
+                    if lo >= 0 and hi <= 10 ** 6:
+                        return SFloat(both, ns=sym.add(x.ns, sym.mul(y, 10 ** 9)))
             return SFloat(both)   # non-negative when both are (otherwise the sign is unknown: treated as possibly negative)
         raise Unsupported("float op %s" % op)
     # ---- bytes
